@@ -77,6 +77,10 @@ mod macros;
 mod params;
 mod parse;
 mod pearson;
+#[cfg(fast_tlsh_verif)]
+#[allow(missing_docs)]
+#[allow(clippy::missing_docs_in_private_items)]
+pub mod verif;
 
 // Easy function re-exports
 #[cfg(feature = "easy-functions")]
